@@ -233,9 +233,13 @@ pub fn run(ctx: &Ctx) -> Report {
     let blocks: usize = if cfg!(miri) { 0 } else { 4096 };
     let per = (1u64 << 32) / blocks.max(1) as u64;
     let do_header = ctx.opt("header").map(|v| v != "0").unwrap_or(true);
+    // coverage measurement only (tools/coverage.py): a 2^-shift sample of every block; the run
+    // then fails its exhaustiveness guard and is reported inconclusive, as it should be
+    let shift = ctx.opt_u64("sweep_shift", 0);
     let sweep = par(ctx, blocks, |b, rep| {
         let lo = b as u64 * per;
         let mut near = 0u64;
+        let per = per >> shift;
         for u in lo..lo + per {
             let c = u as u32 as i32;
             check_from(c, rep);
